@@ -208,6 +208,23 @@ def w_post(case):
                      'population + noise + filter up to a constant (%s): offsets '
                      'at two points differ' % lab, 'expected': diffs[0],
                      'observed': diffs[1], 'behaviour': 'value'})
+    # the caller moves entries of ONE array object in place between evaluations
+    x_obj = x.copy()
+    g0 = post(x_obj)
+    e0 = float(np.real(ref_total(case, x_obj.copy())))
+    for k_ in sorted(set([0, n // 2, n - 1, max(0, n - 1 - len(case['times']))])):
+        x_obj[k_] *= 1.004
+        g_m = post(x_obj)
+        e_m = float(np.real(ref_total(case, x_obj.copy())))
+        ntr += 1
+        if np.isfinite(g_m) and np.isfinite(e_m) and \
+                abs((g_m - g0) - (e_m - e0)) > 1e-8 * max(1, abs(g0)):
+            viol.append({'sub': 'inplace', 'message': 'after entry %d of the SAME '
+                         'array object was changed in place the log-posterior does '
+                         'not move like the reference (%s)' % (k_, lab),
+                         'expected': e_m - e0, 'observed': g_m - g0,
+                         'behaviour': 'inplace'})
+            break
     # gradient
     try:
         s, grad = post.evaluateS1(x.copy())
